@@ -208,6 +208,9 @@ def decide_close(ob, name, p, code, ref, tol, *, domain=None, oracle=None, make_
                 except (solve.NumEvalError, ZeroDivisionError, ValueError):
                     continue
                 scored.append((d, e))
+            if not scored and pts:
+                # the terms cannot be evaluated numerically (callee summaries): replay the solver's model / stress points as they are
+                scored = [(mpmath.mpf(1), e) for e in pts[:3] if all(k in e for k in vars_)]
             scored.sort(key=lambda t: -t[0])
             thr = mpmath.mpf(Fraction(tol).numerator) / mpmath.mpf(Fraction(tol).denominator)
             for d, e in scored[:6]:
